@@ -8,6 +8,8 @@ pub enum ProbeKind {
     Blend,
     /// `FrameRenderHandle::reset` discarded a finished (`Done`/`Blended`) render (entry event only)
     ResetFinished,
+    /// `FrameRenderHandle::reset` overwrote the `Rendering` marker of a render in flight
+    ResetRendering,
 }
 
 /// `(frame index, kind, true on entry / false on exit)`
